@@ -606,9 +606,9 @@ def filter_nodes(nodes: Iterable[ast.AST], template: Template) -> Iterable[ast.A
 
 
 def _parse_for_comparison(source: str) -> ast.Module | None:
-    # An indented snippet is dedented, or, if a line of a string in it is indented less than
-    # the code, put in a block of its own.
-    for candidate in (source, textwrap.dedent(source), "if True:\n" + source):
+    # An indented snippet is put in a block of its own. It is not dedented: that would take the
+    # blanks out of whitespace-only lines of its string literals, on both sides of the comparison.
+    for candidate in (source, "if True:\n" + source):
         try:
             root = ast.parse(candidate)
         except (SyntaxError, ValueError, RecursionError, MemoryError):
